@@ -170,6 +170,17 @@ def run(ctx):
                            "'+' on the right of a raw-begin / variable tag accepted: %r" % got, "C12:probe:%r:%s" % (src, c.key()))
             else:
                 ctx.validated()
+    for kw2 in (dict(trim_blocks=True), dict(lstrip_blocks=True), dict(trim_blocks=True, lstrip_blocks=True)):
+        src = "a\n  {% set x = 1 %}\n  b{# c #}\nd"
+        got, want = L.probe_shared_bytecode_cache(jinja2, {}, kw2, src)
+        case = {"cfg": kw2, "skeleton": "probe-bcc", "src": src}
+        ctx.case(sample=case, key=("bcc", str(kw2)))
+        ctx.count("shared_bytecode_cache_probe")
+        if got != want:
+            ctx.reject(case, "second environment on the shared bytecode cache renders %r, without the cache %r" % (got, want),
+                       "C12:shared-bytecode-cache-ignores-trim-lstrip")
+        else:
+            ctx.validated()
     tags1 = all_tags(TEXTS[:6], raw_full=True)
     tags2 = all_tags(TEXTS[:3], raw_full=False)
     sks = []
@@ -300,6 +311,12 @@ def replay(ctx, data):
         print("replay: this file names a broken theorem/correspondence, not an input:", data.get("broken"))
         return run(ctx)
     c = L.Cfg.from_desc(case["cfg"])
+    if case["skeleton"] == "probe-bcc":
+        got, want = L.probe_shared_bytecode_cache(jinja2, {}, case["cfg"], case["src"])
+        print("shared bytecode cache:", got, "without:", want)
+        if got != want:
+            ctx.reject(case, "shared bytecode cache: %r vs %r" % (got, want), data.get("signature"))
+        return
     if case["skeleton"] == "probe":
         got = real_render(jinja2, c, case["src"])
         print("probe:", repr(case["src"]), "->", got)
